@@ -14,6 +14,38 @@ EXPLANATION = (
 ASSUMPTIONS = ['C02 mirror (the decoder reads what the encoder writes) and C13 R13.4 (fixed size is right) are premises']
 
 
+def check_skip_overrides(out, facts, S, cfg, sk):
+    """every `skip` override reads exactly what `decode` reads (results discarded), with the same tag strictness"""
+    # any other override is validated by the mirror rule: it must read exactly what decode reads (results discarded)
+    D = decshape.DecShapes(facts, S)
+    from . import c02
+    for f in sk:
+        imp = [i for i in facts.impls_of('Decode') if i['path'] == f.get('impl') and i['self'] == f['self']]
+        if not imp:
+            out.fail('R18.2', 'skip override of %s [%s]' % (f['self'], cfg), 'impl not found', f['loc'])
+            continue
+        ws, ts, vs = D.dec_shape(imp[0], 'skip')
+        wd, td, vd = D.dec_shape(imp[0], 'decode')
+        if f['self'] == '[T; N]':
+            # decode of an array is decode_into of the array: compare with the type's wire shape instead
+            wd = S.wire_type(T.from_json(imp[0]['self_ty']))
+        a, b = c02.norm(ws), c02.norm(wd)
+        ok = a == b and not c02.find_kind(a, 'opaque')
+        # same strictness of tag dispatch
+        if ok and f['self'] != '[T; N]':
+            from . import c03
+            at = [x for x in items(ts) if x[0] == 'alt']
+            bt = [x for x in items(td) if x[0] == 'alt']
+            if len(at) == len(bt):
+                for x, y in zip(at, bt):
+                    if c03.accepted_tags(x)[:2] != c03.accepted_tags(y)[:2]:
+                        ok = False
+            else:
+                ok = False
+        out.ob('R18.2', 'skip override of %s [%s]' % (f['self'], cfg), ok,
+               'skip reads %s but decode reads %s (or accepts different tags / does not return Ok(()))' % (str(a)[:160], str(b)[:160]), f['loc'])
+
+
 def run(cx, out):
     out.rule('R18.1', 'DecodeLength::len reads the same Compact<u32> count the type\'s wire shape starts with; tuples delegate to their first component')
     out.rule('R18.2', 'skip overridden only by arrays; override = N element skips or a full decode; default = decode + discard')
@@ -67,34 +99,7 @@ def run(cx, out):
         sk = [f for f in facts.methods('Decode', 'skip')]
         selfs = sorted(f['self'] for f in sk)
         out.ob('R18.2', 'skip overrides [%s]' % cfg, '[T; N]' in selfs, 'the audited [T; N] skip override disappeared', '-')
-        # any other override is validated by the mirror rule: it must read exactly what decode reads (results discarded)
-        D = decshape.DecShapes(facts, S)
-        from . import c02
-        for f in sk:
-            imp = [i for i in facts.impls_of('Decode') if i['path'] == f.get('impl') and i['self'] == f['self']]
-            if not imp:
-                out.fail('R18.2', 'skip override of %s [%s]' % (f['self'], cfg), 'impl not found', f['loc'])
-                continue
-            ws, ts, vs = D.dec_shape(imp[0], 'skip')
-            wd, td, vd = D.dec_shape(imp[0], 'decode')
-            if f['self'] == '[T; N]':
-                # decode of an array is decode_into of the array: compare with the type's wire shape instead
-                wd = S.wire_type(T.from_json(imp[0]['self_ty']))
-            a, b = c02.norm(ws), c02.norm(wd)
-            ok = a == b and not c02.find_kind(a, 'opaque')
-            # same strictness of tag dispatch
-            if ok and f['self'] != '[T; N]':
-                from . import c03
-                at = [x for x in items(ts) if x[0] == 'alt']
-                bt = [x for x in items(td) if x[0] == 'alt']
-                if len(at) == len(bt):
-                    for x, y in zip(at, bt):
-                        if c03.accepted_tags(x)[:2] != c03.accepted_tags(y)[:2]:
-                            ok = False
-                else:
-                    ok = False
-            out.ob('R18.2', 'skip override of %s [%s]' % (f['self'], cfg), ok,
-                   'skip reads %s but decode reads %s (or accepts different tags / does not return Ok(()))' % (str(a)[:160], str(b)[:160]), f['loc'])
+        check_skip_overrides(out, facts, S, cfg, sk)
         d = facts.trait_default('Decode', 'skip')
         if d:
             t, v, ev = wire.infer_decoder_fn(facts, d)
@@ -103,3 +108,17 @@ def run(cx, out):
             out.ob('R18.2', 'Decode::skip default [%s]' % cfg, ok, 'default skip is not decode(input).map(|_| ()): %s -> %s' % (sym.tstr(t), sym.vstr(v)), d['loc'])
         else:
             out.fail('R18.2', 'Decode::skip default [%s]' % cfg, 'not found', '-')
+    # derived code: a `skip` the derive macros generate must mirror the derived `decode` (derive corpus of C05)
+    from . import c05 as _c05
+    from .. import facts as _fm
+    if not getattr(cx, 'nested', 0):
+        try:
+            fx, _defs = _c05.corpus_facts(cx)
+            libD = cx.facts('D')
+            Sx = shape.Shapes(fx)
+            skx = [f for f in fx.methods('Decode', 'skip') if f['path'] not in libD.by_path]
+            check_skip_overrides(out, fx, Sx, 'derive corpus', skx)
+            out.count('derived skip overrides in the corpus', len(skx))
+        except _fm.BuildError as e:
+            out.fail('R18.2', 'derive corpus', 'corpus does not compile: %s' % str(e)[:300], '-')
+
